@@ -319,6 +319,51 @@ fn pair_histories(ctx: &Ctx, acc: &mut Acc, l: L, nwords: usize) {
         }
     }
     acc.count("pair_history_phrases", phrases.len() as u64);
+    // (b) first call = ONE word from a wider alphabet (every vocabulary word that is a number below 20 on its
+    // own — all the spelling aliases of the small numbers — plus the words above), second call = a phrase
+    let mut wide: Vec<String> = alpha.clone();
+    let probe = l.facade();
+    for w in crate::vocab::number_words(l) {
+        if wide.contains(&w) {
+            continue;
+        }
+        if let Ok(Ok(d)) = guard(|| text2digits(&w, &probe)) {
+            if d.trim_start_matches('0').len() <= 2 && d.bytes().all(|c| c.is_ascii_digit()) && d.parse::<u32>().map_or(false, |v| v < 20) {
+                wide.push(w);
+            }
+        }
+    }
+    // second calls also over the aliases: phrases of <= 2 words over `alpha` plus each alias alone or first
+    let mut seconds: Vec<String> = phrases.clone();
+    for w in wide.iter().skip(alpha.len()) {
+        seconds.push(w.clone());
+        for v in alpha.iter().take(6) {
+            seconds.push(format!("{w} {v}"));
+        }
+    }
+    let expected2: Vec<String> = seconds.iter().map(|p| obs(&l.facade(), p)).collect();
+    for p in &wide {
+        for (j, q) in seconds.iter().enumerate() {
+            acc.states += 1;
+            acc.transitions += 2;
+            acc.traces += 1;
+            let lang = l.facade();
+            let _ = obs(&lang, p);
+            let second = obs(&lang, q);
+            if second != expected2[j] {
+                ctx.report(acc, Violation {
+                    lang: l.code().into(),
+                    entry: "history".into(),
+                    input: format!("calls on {p:?}; then calls on {q:?} (same interpreter)"),
+                    threshold: None,
+                    clause: "result(c | one earlier call) = result(c | fresh interpreter)".into(),
+                    expected: expected2[j].clone(),
+                    observed: second,
+                });
+            }
+        }
+    }
+    acc.count("pair_history_first_words", wide.len() as u64);
 }
 
 /// Histories across languages on the SAME texts with different thresholds: a cache or global keyed
@@ -379,6 +424,63 @@ fn acc_step<A: Iterator<Item = text2num::Occurence>, B: Iterator<Item = text2num
     } else if let Some(o) = b.next() {
         rb.push(Occ::of(&o).show());
     }
+}
+
+/// The same exploration on the CONCRETE interpreter type shared by the threads (the facade does not forward
+/// every trait method, so state kept by a concrete interpreter can be out of its reach).
+fn schedules_concrete(ctx: &Ctx, acc: &mut Acc, l: L) {
+    crate::with_concrete!(l, fresh => {
+        let expected: Vec<String> = (0..NCALLS).map(|i| call_on(&fresh, l, i, true)).collect();
+        macro_rules! explore_on {
+            ($mk_interp:expr) => {{
+                let slot = Arc::new(std::sync::Mutex::new(Arc::new(ForceShare($mk_interp))));
+                let reset = || *slot.lock().unwrap() = Arc::new(ForceShare($mk_interp));
+                for (a, b) in [(4usize, 4usize), (4, 0), (0, 4), (0, 0), (4, 5)] {
+                    let mk = |c: usize| -> Body<Vec<String>> {
+                        let slot = slot.clone();
+                        Arc::new(move || {
+                            let sh = slot.lock().unwrap().clone();
+                            vec![call_on(&sh.0, l, c, true)]
+                        })
+                    };
+                    let bodies = vec![mk(a), mk(b)];
+                    let mut bad: Option<(Vec<usize>, String)> = None;
+                    let ex = sched::explore(&bodies, 1, &reset, &mut |choices, results: &[Vec<String>]| {
+                        for (t, c) in [(0usize, a), (1, b)] {
+                            let got = results.get(t).and_then(|r| r.first()).cloned().unwrap_or_default();
+                            if got != expected[c] && bad.is_none() {
+                                bad = Some((choices.to_vec(), format!("T{t}.{} = {got}   (expected {})", call_name(c), expected[c])));
+                            }
+                        }
+                    });
+                    acc.states += ex.executions;
+                    acc.transitions += ex.executions * ex.max_points as u64;
+                    acc.traces += ex.executions;
+                    acc.count("programs_on_concrete_type", 1);
+                    if let Some((choices, what)) = bad {
+                        ctx.report(acc, Violation {
+                            lang: l.code().into(),
+                            entry: "schedule".into(),
+                            input: format!("concrete interpreter type shared by T0: {} || T1: {} ; schedule {choices:?}", call_name(a), call_name(b)),
+                            threshold: None,
+                            clause: "the result of a call does not depend on concurrent calls sharing the interpreter".into(),
+                            expected: "every call returns its sequential fresh-interpreter result".into(),
+                            observed: what,
+                        });
+                    }
+                }
+            }};
+        }
+        match l {
+            L::En => explore_on!(text2num::lang::English::new()),
+            L::Fr => explore_on!(text2num::lang::French::new()),
+            L::Es => explore_on!(text2num::lang::Spanish::new()),
+            L::Pt => explore_on!(text2num::lang::Portuguese::new()),
+            L::It => explore_on!(text2num::lang::Italian::new()),
+            L::De => explore_on!(text2num::lang::German::new()),
+            L::Nl => explore_on!(text2num::lang::Dutch::new()),
+        }
+    });
 }
 
 fn schedules(ctx: &Ctx, acc: &mut Acc, l: L, tier: Tier, instrumented: bool) {
@@ -612,6 +714,7 @@ pub fn shim_child(tier: Tier) -> i32 {
             .map(|l| {
                 let mut a = Acc::new();
                 schedules(&ctx, &mut a, *l, tier, true);
+                schedules_concrete(&ctx, &mut a, *l);
                 a
             })
             .collect();
@@ -773,6 +876,7 @@ pub fn run(tier: Tier) -> i32 {
             .map(|l| {
                 let mut a = Acc::new();
                 schedules(&ctx, &mut a, *l, tier, false);
+                schedules_concrete(&ctx, &mut a, *l);
                 a
             })
             .collect();
